@@ -27,6 +27,7 @@ theorem c20_on_source (t : AT) (rs : List Rec) (hperm : rs.Perm (vals (extract t
   exact ⟨(c20_report_lists_every_task_once t rs hperm).1, (c20_report_lists_every_task_once t rs hperm).2.2⟩
 
 
+
 -- BEGIN PINS (written by bin/mkpins; do not edit by hand)
 /-- the Go functions this property's model and obligations were written against have exactly the
 pinned skeletons (SHA-256 prefix of the atom list) -/
